@@ -306,13 +306,16 @@ pub struct Content {
 }
 
 pub const CONTENT_CLASSES: u32 = 10;
+/// extra classes selected explicitly: 10 = runs of zero / opaque / near-opaque pixels, 11 = finite values with sparse inf / NaN (floats only)
+pub const CONTENT_RUNS: u8 = 10;
+pub const CONTENT_NONFINITE: u8 = 11;
 
 impl Content {
     pub fn name(&self) -> &'static str {
         [
             "zero", "random", "extremes", "checker", "stripes", "impulse", "band", "constant",
-            "gradient", "wide",
-        ][self.class.min(9) as usize]
+            "gradient", "wide", "runs", "nonfinite",
+        ][self.class.min(11) as usize]
     }
 }
 
@@ -387,6 +390,72 @@ pub fn fill_content(pt: PixelType, w: u32, h: u32, content: Content, bytes: &mut
         }
         _ => (lo, hi),
     };
+    if content.class == CONTENT_RUNS {
+        // runs of 1..48 pixels of one kind: all-zero pixel, opaque, near-opaque (alpha just below max),
+        // constant pixel, random. For types without alpha the last channel is treated alike.
+        let vmax = if c == Comp::F32 { 1.0 } else { hi };
+        let mut left = 0usize;
+        let mut kind = 0u64;
+        let mut constant = vec![0.0f64; nch];
+        for i in 0..w * h {
+            if left == 0 {
+                left = 1 + rng.below(48) as usize;
+                kind = rng.below(6);
+                for v in constant.iter_mut() {
+                    *v = rnd_val(&mut rng);
+                }
+            }
+            left -= 1;
+            for ch in 0..nch {
+                let last = ch == nch - 1;
+                let v = match kind {
+                    0 => 0.0,
+                    1 => {
+                        if last {
+                            vmax
+                        } else {
+                            rnd_val(&mut rng)
+                        }
+                    }
+                    2 => {
+                        if last {
+                            match c {
+                                Comp::F32 => 1.0 - rng.unit() * 1e-3,
+                                Comp::U16 => vmax - 1.0 - rng.below(255) as f64,
+                                _ => (vmax - 1.0 - rng.below(3) as f64).max(lo),
+                            }
+                        } else {
+                            rnd_val(&mut rng)
+                        }
+                    }
+                    3 => constant[ch],
+                    4 => {
+                        if last {
+                            0.0
+                        } else {
+                            rnd_val(&mut rng)
+                        }
+                    }
+                    _ => rnd_val(&mut rng),
+                };
+                set_comp(c, bytes, i * nch + ch, v);
+            }
+        }
+        return;
+    }
+    if content.class == CONTENT_NONFINITE && c == Comp::F32 {
+        for i in 0..w * h * nch {
+            let v = match rng.below(24) {
+                0 => f64::INFINITY,
+                1 => f64::NEG_INFINITY,
+                2 => f64::NAN,
+                _ => rng.unit(),
+            };
+            let idx = i;
+            bytes[4 * idx..4 * idx + 4].copy_from_slice(&(v as f32).to_ne_bytes());
+        }
+        return;
+    }
     for y in 0..h {
         for x in 0..w {
             for ch in 0..nch {
